@@ -33,12 +33,12 @@ man = dict(
                enable='RUSTFLAGS="--cfg sierradb_verif" (set in harness/.cargo/config.toml; the harness crates depend on /repo/crates/* by path)',
                baseline_off_cmd="cd /repo && cargo nextest run --workspace --no-fail-fast --test-threads 8 --offline",
                source_commits=json.load(open(os.path.join(ROOT, "checks", "hook_commits.json"))) if os.path.exists(os.path.join(ROOT, "checks", "hook_commits.json")) else [],
-               add_only=True),
+               add_only=False),
     engines=[dict(name="coq-proof+correspondence", path="bin/check",
                   serves_properties=[c["property_id"] for c in checks],
                   kind_free_text="Coq 8.16 theorems about a hand-written executable Gallina model (coq/theories), tied to /repo on every run by a correspondence check: the Rust harness (harness/) runs the implementation, the extracted model (ocaml/) runs the same cases, outputs are diffed and a direct property monitor searches for a failing input")],
     checks=checks,
-    notes="See DESIGN.md. known_findings.json lists fixed/known defects; evidence/ is rewritten by every run.",
+    notes="See DESIGN.md (section 0 = as built). known_findings.json lists fixed/known defects; evidence/ is rewritten by every run. Hook commits are additive except for 7 rewritten lines in total (bb75ef4 binds the timestamp to a local so that a yield point fits between the clock read and the store; 0b61203 and f516bff move one statement each) — behaviour with the cfg off is unchanged (crate tests pass without the cfg).",
     not_applicable=na)
 json.dump(man, open(os.path.join(ROOT, "MANIFEST.json"), "w"), indent=1)
 print(f"MANIFEST.json: {len(checks)} checks, {len(na)} not claimed")
